@@ -24,7 +24,7 @@ def RULE(tier):
             "response). Inputs: every byte string of length <= %d, every string of length <= %d over 16 HTTP-significant bytes, every "
             "single mutation (delete / insert / replace at every position with each of the 16 bytes) of %s, and targeted near-valid "
             "shapes (colon without space, non-hex/signed chunk sizes, bad ports / IPv6 in absolute URLs, 70 kB lines, bad status lines, "
-            "non-UTF-8 event data), a request-target grammar (6 prefixes x 1-2 of 17 raw and percent-encoded URL delimiters), a Content-Type grammar (%d types x %d parameter shapes: empty, missing '=', bare ';', quoted, unknown "
+            "non-UTF-8 event data), a request-target grammar (6 prefixes x 1-2 of 25 raw and percent-encoded URL delimiters and query shapes), an event-stream field grammar (4 fields x 11 hostile values, plain and chunked), a Content-Type grammar (%d types x %d parameter shapes: empty, missing '=', bare ';', quoted, unknown "
             "codec, ... x 2 bodies) alone and followed by each of %d probe messages on the same keep-alive connection (state left in "
             "the connection's parser by one message must not make the next one raise). Oracle: service() never raises; the sibling's valid request is answered 200; key = (system, hio "
             "call site, exception type)." % (2 if q else 2, 3 if q else 4, "a 24-message corpus" if q else "the full message corpus",
@@ -72,7 +72,8 @@ TARGETED_RSP = [
 
 # request-target grammar: delimiters of the URL syntax, raw and percent-encoded, after each kind of prefix
 TGT_PREFIX = [b"/", b"//", b"http://", b"http://h", b"/a/", b"*"]
-TGT_PIECES = [b"%5B", b"[", b"%5D", b"]", b":99999", b":ab", b"%3A99999", b"@", b"%40", b"?", b"%3F", b"#", b"%23", b"%2F%2F", b"%", b"%zz", b"x"]
+TGT_PIECES = [b"%5B", b"[", b"%5D", b"]", b":99999", b":ab", b"%3A99999", b"@", b"%40", b"?", b"%3F", b"#", b"%23", b"%2F%2F", b"%", b"%zz", b"x",
+              b"?a=b=c", b"?a==", b"?=", b"?&", b"?a=%3D%3D", b"?a&b", b"?%26=%3D&", b"?a=1&a=2"]
 
 
 def target_requests():
@@ -110,6 +111,20 @@ PROBE_RSP = [b"HTTP/1.1 200 OK\r\nContent-Length: 2\r\n\r\n\xc3\xa9", b"HTTP/1.1
              b"HTTP/1.1 301 Moved\r\nLocation: /%ff\r\nContent-Length: 0\r\n\r\n"]
 
 
+# event-stream fields with values that look numeric / textual to one conversion and not to another
+SSE_FIELDS = [b"retry", b"id", b"event", b"data"]
+SSE_VALUES = [b"\xc2\xb2", b"\xd9\xa1\xd9\xa2", b"1_0", b"+5", b" 5", b"-1", b"1e3", b"", b"\xff", b"9" * 200, b"\xe2\x85\xa7"]
+
+
+def sse_responses():
+    for f in SSE_FIELDS:
+        for val in SSE_VALUES:
+            body = f + b": " + val + b"\ndata: x\n\n"
+            yield b"HTTP/1.1 200 OK\r\nContent-Type: text/event-stream\r\n\r\n" + body
+            yield (b"HTTP/1.1 200 OK\r\nContent-Type: text/event-stream\r\nTransfer-Encoding: chunked\r\n\r\n" +
+                   b"%x\r\n" % len(body) + body + b"\r\n0\r\n\r\n")
+
+
 def corpus(tier):
     reqs = httpgen.request_corpus(tier != "quick")
     rsps = httpgen.response_corpus(tier != "quick")
@@ -140,6 +155,8 @@ def jobs(tier):
             js.append((sysname, "ctype", ti))
         if sysname != "client":
             js.append((sysname, "target"))
+        else:
+            js.append((sysname, "sse"))
     return js
 
 
@@ -330,6 +347,10 @@ def run_job(job, tier, seed):
     elif kind == "target":
         for data in target_requests():
             do(data)
+    elif kind == "sse":
+        for data in sse_responses():
+            do(data)
+            do(data, split=len(data) - 4)
     elif kind == "ctype":
         ti = job[2]
         side = "rsp" if sysname == "client" else "req"
